@@ -41,6 +41,11 @@ def build(tier, seed, exclude):
         err = EN.c11_history([T.real(r1), T.real(r2), T.real(r3)], T.real(prop), T.real(fail_first))
         return T.fail(err) if err else True
     """, timeout=to)
+    # rerun with and without propagation into nested workflows, both loops
+    g.cond("h_nested_rerun", "use_async: bool, prop: bool", ["True"], """
+        err = EN.c11_nested_rerun(T.real(use_async), T.real(prop))
+        return T.fail(err) if err else True
+    """, timeout=to)
     # node-level hits in a read-only cache given as an absolute or a relative path
     g.cond("h_readonly_node_hits", "relative: bool, x: int", ["1 <= x <= 2"], """
         err = EN.c11_node_hits_in_readonly_cache(T.real(relative), T.real(x))
